@@ -2,7 +2,7 @@
 From Coq Require Import ZArith List Bool Lia ZifyBool Arith.
 From Coq Require Import QArith.
 From NV.Generated Require Import GridHash.
-From NV.C11 Require Import Model Proofs Proofs2 ModelQ Proofs3 Proofs4 Proofs5 Proofs6.
+From NV.C11 Require Import Model Proofs Proofs2 ModelQ Proofs3 Proofs4 Proofs5 Proofs6 Proofs7.
 Close Scope Q_scope.
 Import ListNotations.
 Open Scope Z_scope.
@@ -332,3 +332,87 @@ Example cc_check_example :
   cc_check 5 (mkE [(0,1,1); (1,0,1); (3,4,0); (4,3,0)]) [0; 0; 1; 2; 2] = true /\
   cc_check 5 (mkE [(0,1,1); (1,0,1); (3,4,0); (4,3,0)]) [0; 0; 0; 1; 1] = false.
 Proof. vm_compute. repeat split; reflexivity. Qed.
+
+(* ---- floyd(): one dijkstra per entry of the seed array, in the caller's order ---------- *)
+(* `floyd_code` is the loop as written (`seed = arange(V)` when None; `dg = None`; first row, then
+   np.vstack).  For ALL V, E, argsort oracle and seed arguments (None / any list: unsorted,
+   repeated, out of range): when a matrix is returned it has one row per seed and row i is the
+   model's dijkstra from seed[i] alone - never from another entry of the seed array. *)
+Theorem floyd_rows_follow_seed_order :
+  forall V E order seed rows,
+  floyd_code V E order seed = Some rows ->
+  length rows = length (floyd_seeds V seed) /\
+  forall i, (i < length (floyd_seeds V seed))%nat ->
+    nth i rows [] = dijkstra_model V E order [nth i (floyd_seeds V seed) O].
+Proof. exact floyd_rows_follow_seed_order_lemma. Qed.
+Print Assumptions floyd_rows_follow_seed_order.
+
+(* the quirk of the accumulator: None exactly for an empty seed array (a graph without vertices
+   and seed=None included); a matrix otherwise *)
+Theorem floyd_returns_matrix_iff_some_seed :
+  forall V E order seed,
+  floyd_code V E order seed =
+  match floyd_seeds V seed with
+  | [] => None
+  | _ :: _ => Some (floyd_model V E order (floyd_seeds V seed))
+  end.
+Proof. exact floyd_code_eq. Qed.
+Print Assumptions floyd_returns_matrix_iff_some_seed.
+
+(* seed=None is the all-pairs matrix: V rows, row v = distances from v *)
+Theorem floyd_none_is_all_pairs :
+  forall V E order rows,
+  floyd_code V E order None = Some rows ->
+  length rows = V /\ forall v, (v < V)%nat -> nth v rows [] = dijkstra_model V E order [v].
+Proof. exact floyd_none_all_pairs_lemma. Qed.
+Print Assumptions floyd_none_is_all_pairs.
+
+(* certificate for a whole floyd matrix: every row accepted by sp_check against ITS OWN seed
+   (rows and seeds of equal number) => row i is exactly the shortest-path distance function of
+   seed[i], for ALL graphs, seed arrays and candidate matrices *)
+Theorem floyd_certificate_sound :
+  forall V E seeds rows,
+  floyd_rows_check V E seeds rows = true ->
+  length rows = length seeds /\
+  forall i, (i < length seeds)%nat -> is_sp_dist E [nth i seeds O] (getd (nth i rows [])).
+Proof. exact floyd_rows_check_sound. Qed.
+Print Assumptions floyd_certificate_sound.
+
+(* model result that passes the certificate (evaluated per case by the harness): partial, for the
+   same reason as dijkstra_checked_partial *)
+Theorem floyd_checked_partial :
+  forall V E order seed rows,
+  floyd_code V E order seed = Some rows ->
+  floyd_rows_check V E (floyd_seeds V seed) rows = true ->
+  forall i, (i < length (floyd_seeds V seed))%nat ->
+    is_sp_dist E [nth i (floyd_seeds V seed) O]
+               (getd (dijkstra_model V E order [nth i (floyd_seeds V seed) O])).
+Proof. exact floyd_checked_lemma. Qed.
+Print Assumptions floyd_checked_partial.
+
+(* outright: on the edgeless graph, for EVERY V and every seed argument below V (any order,
+   repeats, None), row i of the model's floyd matrix is the distance function of seed[i] *)
+Theorem floyd_no_edges_correct :
+  forall V seed rows,
+  (forall s, In s (floyd_seeds V seed) -> (s < V)%nat) ->
+  floyd_code V [] [] seed = Some rows ->
+  length rows = length (floyd_seeds V seed) /\
+  forall i, (i < length (floyd_seeds V seed))%nat ->
+    is_sp_dist [] [nth i (floyd_seeds V seed) O] (getd (nth i rows [])).
+Proof. exact floyd_no_edges_lemma. Qed.
+Print Assumptions floyd_no_edges_correct.
+
+(* non-vacuity: path 0 -1- 1 -2- 2 with seeds [2; 0; 2] (unsorted, repeated): three rows in the
+   caller's order, accepted by the certificate; the same rows against the SORTED seeds [0; 2; 2]
+   are rejected; an empty seed array gives None *)
+Example floyd_unsorted_seeds_example :
+  let E := [(0%nat, 1%nat, 1); (1%nat, 0%nat, 1); (1%nat, 2%nat, 2); (2%nat, 1%nat, 2)] in
+  let order := [0%nat; 1%nat; 2%nat; 3%nat] in
+  floyd_code 3 E order (Some [2%nat; 0%nat; 2%nat]) =
+    Some [[Some 3; Some 2; Some 0]; [Some 0; Some 1; Some 3]; [Some 3; Some 2; Some 0]] /\
+  floyd_rows_check 3 E [2%nat; 0%nat; 2%nat]
+    [[Some 3; Some 2; Some 0]; [Some 0; Some 1; Some 3]; [Some 3; Some 2; Some 0]] = true /\
+  floyd_rows_check 3 E [0%nat; 2%nat; 2%nat]
+    [[Some 3; Some 2; Some 0]; [Some 0; Some 1; Some 3]; [Some 3; Some 2; Some 0]] = false /\
+  floyd_code 3 E order (Some []) = None.
+Proof. vm_compute. repeat split. Qed.
